@@ -110,11 +110,24 @@ def intersection_interval_rule(cx):
     I1 = '(index (call *Circle2::intersections_with (param self) (param other)) 1)'
     S = f'(call *Circle2::angle_of_point (param self) {I0})'
     A = f'(call *signed_angle (call OPoint::sub {I0} (field center (param self))) (call OPoint::sub {I1} (field center (param self))))'
-    somes = [(s, dict(d[2:]).get('0')) for s, d in cx.rets(b) if d[0] == 'agg' and d[1].endswith('Option::Some')]
-    direct = [s for s, v in somes if match(f'(call *AngleInterval::new {S} {A})', v) is not None]
-    compl = [s for s, v in somes if match(f'(call *AngleInterval::new {S} (call *signed_compliment_2pi {A}))', v) is not None]
-    test = f'(call *AngleInterval::contains (call *AngleInterval::new {S} {A}) (call *Circle2::angle_of_point (param self) (field center (param other))))'
-    ok = len(direct) == 1 and len(compl) == 1 and cx.guarded(b, direct[0].bb, test, True) is not None and cx.guarded(b, compl[0].bb, test, False) is not None
+    NEW0, NEW1 = f'(call *AngleInterval::new {S} {A})', f'(call *AngleInterval::new {S} (call *signed_compliment_2pi {A}))'
+    test = f'(call *AngleInterval::contains {NEW0} (call *Circle2::angle_of_point (param self) (field center (param other))))'
+    # one Some per branch, or one Some fed by `if direct { i0 } else { i1 }`: the payload is separated by the polarity of the containment test either way
+    seen = {True: None, False: None}
+    somes = []
+    for s in b.aggregates('*Option'):
+        rv = s.data['rv']
+        if not str(rv.get('variant', rv.get('v', ''))).endswith('Some') and 'Some' not in show(cx.aggval(s))[:40]:
+            continue
+        v = dict(cx.aggval(s)[2:]).get('0')
+        if v is None or find('(call *signed_angle _ _)', v) is None:
+            continue
+        somes.append((s, v))
+        cs = cx.cases_by(b, s, rv['ops'], test)
+        for pol in (True, False):
+            if cs[pol] and cs[pol][0] is not None:
+                seen[pol] = cs[pol][0]
+    ok = 1 <= len(somes) <= 2 and seen[True] is not None and seen[False] is not None and match(NEW0, seen[True]) is not None and match(NEW1, seen[False]) is not None
     cx.ob('GUARD', 'intersection_interval:which-arc', ok,
           'of the two arcs between the crossing points (signed angle a, and its 2*pi complement) the one returned is the one containing the direction of the OTHER centre '
           '(a small circle cut by a large close one owns the LONG arc)', where=b.file, found='; '.join(show(v)[:120] for _, v in somes))
